@@ -81,8 +81,10 @@ def setup():
         ok, log = C.run_translator()
         print("translator:", "ok" if ok else log[-2000:])
         ok, log = C.coq_make()
-        print("coq:", "ok" if ok else log[-4000:])
-        if not ok: return 2
+        print("coq:", "ok" if ok else "some files failed: %s\n%s" % (C.COQ_FAILED, log[-3000:]))
+        core_ok, bad = C.coq_ok_for("Preds2.v")
+        if not core_ok:
+            print("core model does not build:", bad); return 2
         ok, log = C.build_oracle()
         print("oracle:", "ok" if ok else log[-2000:])
         if not ok: return 2
